@@ -11,6 +11,10 @@ checks = {
  "C05": ("order", SWEEP + "; oracle: completeness against the Core derivation + one outcome class over all explored orders", "6 C05"),
  "C06": ("order", SWEEP + "; oracle: no panic / recursion-depth or step-budget sentinel / worker death", "6 C06"),
  "C08": ("order", SWEEP + " over Redefine scenarios; oracle: filter/resupply/callability + differential against the original function", "6 C08"),
+ "C14": ("api", "exhaustive enumeration of function signatures (positional lists, marker structs with every field-tag variant, pointer forms, error positions, rejected shapes) on the real NewFunc; oracle: value list computed from the signature description", "6 C14"),
+ "C15": ("api", "exhaustive enumeration of value lists through NewValueSet/accessors/Signature round trip, and of BuildFunc input/output lists x 3-call histories compared with an ordinary function of the same signature", "6 C15"),
+ "C16": ("api", "exhaustive enumeration of option lists (length <=4/5 over a 10-option menu) x default/call splits x parameter casings, and of all permutations of distinct-key lists; oracle: last-occurrence-per-key reference", "6 C16"),
+ "C17": ("api", "exhaustive enumeration of result shapes (arity 0-4 over T0/T1/error/*myErr at every position, nil/non-nil final error, failed resolutions) on the real Call/Result accessors", "6 C17"),
  "C18": ("graph", "exhaustive enumeration of all small weighted digraphs x sources x map-iteration orders (all orders for n<=3, deviation-bounded above) on the real Dijkstra/EdgeToPath; oracle: Floyd-Warshall", "6 C18"),
  "C19": ("graph-state", "explicit-state BFS (visited set over canonical graph states) whose every transition runs the real Graph operation and its Copy/Reverse obligations, read back through the public API against an adjacency-matrix model", "6 C19"),
  "C20": ("graph", "exhaustive enumeration of all digraphs on <=4 vertices x starts x decline sets x map-iteration orders on the real DFS/KahnSort/StronglyConnected/TopoShortestPath; oracle: transitive closure / Floyd-Warshall", "6 C20"),
@@ -22,6 +26,7 @@ for i in range(1, 21):
     if pid not in checks:
         todo[pid] = "check not built yet (build round in progress)"
 LEVEL_TEXT = {
+ "api": "Bounded exhaustive model checking of the API surface: every case of a closed-form enumeration (stated in the evidence) is executed on the real library, under sorted and globally reversed map order, and compared with a reference computed from the case description.",
  "graph": "Bounded exhaustive model checking of internal/graph: every digraph of the stated size and weight alphabet is run through the real algorithm under every map-iteration order (all orders for n<=3; within the stated deviation bound otherwise) and compared with a textbook reference on every execution.",
  "graph-state": "Explicit-state model checking of the real Graph: breadth-first search over all canonical states reachable from the zero Graph (2-3 hash codes, 2 representative objects per code, weights absent/1/2), every operation of the menu applied in every state on the real code and read back through the public API; invariants (mirror, adjacency model, Copy independence, Reverse sharing, Reverse twice) checked on every transition.",
  "order": "Bounded exhaustive model checking of the implementation: every scenario of the stated alphabet is executed on the real library under every map-iteration order within the stated deviation bound of sorted order (plus the globally reversed order); the oracle is evaluated on every execution. This reaches what the suite cannot: the quantifiers over inputs/configurations and over iteration orders.",
@@ -38,6 +43,7 @@ man = {
  },
  "engines": [
   {"name": "vinst", "path": "vinst/", "serves_properties": sorted(checks), "kind_free_text": "AST instrumenter emitting a build overlay (no edits to /repo)"},
+  {"name": "api", "path": "harness/api.go, harness/api2.go", "serves_properties": ["C14", "C15", "C16", "C17"], "kind_free_text": "exhaustive case enumeration against spec-derived references, in-process"},
   {"name": "graph", "path": "harness/graphcheck.go", "serves_properties": ["C18", "C20"], "kind_free_text": "exhaustive small-graph enumeration x order exploration against reference algorithms"},
   {"name": "graph-state", "path": "harness/graphstate.go", "serves_properties": ["C19"], "kind_free_text": "explicit-state BFS with visited set; transitions executed on the real Graph"},
   {"name": "order", "path": "harness/order.go", "serves_properties": [p for p in sorted(checks) if checks[p][0] == "order"], "kind_free_text": "stateless deviation-bounded DFS over map-iteration-order choice points of the real library, sharded over worker subprocesses"},
